@@ -201,7 +201,8 @@ func (g *Gen) genExpr(s schema, t string, d int) Expr {
 	if g.rng.Intn(3) == 0 {
 		// unary whose result is t
 		cands := [][2]string{}
-		for at, l := range unaryOps {
+		for _, at := range []string{"bool", "float", "int", "string"} { // fixed order: generation must be reproducible from the seed
+			l := unaryOps[at]
 			for _, sg := range l {
 				if sg.res == t {
 					cands = append(cands, [2]string{at, sg.op})
